@@ -95,6 +95,13 @@ let expand (a : string) : string =
     else if c <> '@' then (Buffer.add_char b c; incr i)
     else begin
       let k = a.[!i + 1] in
+      let is_hex ch = (ch >= '0' && ch <= '9') || (ch >= 'a' && ch <= 'f') || (ch >= 'A' && ch <= 'F') in
+      if k = 'x' then begin
+        i := !i + 2;
+        while !i + 1 < n && is_hex a.[!i] && is_hex a.[!i + 1] do
+          Buffer.add_char b (Char.chr (int_of_string ("0x" ^ String.sub a !i 2))); i := !i + 2
+        done
+      end else
       let (v, j) = num (!i + 2) in
       i := j;
       (match k with
@@ -120,8 +127,15 @@ let expand (a : string) : string =
 
 let shown (s : string) : string =
   let l = String.length s in
-  if l <= 200 then s
-  else Printf.sprintf "<%d:%d>" l (fnv (List.init l (fun i -> Char.code s.[i])))
+  if l > 200 then Printf.sprintf "<%d:%d>" l (fnv (List.init l (fun i -> Char.code s.[i])))
+  else begin
+    let b = Buffer.create (l + 8) in
+    String.iter (fun c ->
+      if (c >= 'a' && c <= 'z') || (c >= 'A' && c <= 'Z') || (c >= '0' && c <= '9')
+         || c = '.' || c = '_' || c = '/' || c = '-'
+      then Buffer.add_char b c else Buffer.add_string b (Printf.sprintf "%%%02X" (Char.code c))) s;
+    Buffer.contents b
+  end
 
 let path_of (s0 : string) : n list =
   let s = expand s0 in List.init (String.length s) (fun i -> n_of_int (Char.code s.[i]))
@@ -336,8 +350,15 @@ let sqring_case (line : string) : string =
        ^ Printf.sprintf "h=%s t=%s" (string_of_z r.sq_head) (string_of_z r.sq_tail)
      | _ -> "bad case")
 
+(* ---------------- scandir filter ---------------- *)
+let filter_case (line : string) : string =
+  let hex = String.trim line in
+  let name = if hex = "-" then [] else
+      List.init (String.length hex / 2) (fun i -> n_of_int (int_of_string ("0x" ^ String.sub hex (2 * i) 2))) in
+  if scandir_keeps name then "1" else "0"
+
 let () =
   let f = match Sys.argv.(1) with
-    | "bufs" -> bufs_case | "routes" -> routes_case | "pool" -> pool_case | "sqring" -> sqring_case
+    | "bufs" -> bufs_case | "routes" -> routes_case | "pool" -> pool_case | "sqring" -> sqring_case | "filter" -> filter_case
     | _ -> failwith "mode" in
   iter_lines (fun l -> print_string (try f l with e -> "model-error " ^ Printexc.to_string e); print_newline ())
